@@ -37,6 +37,7 @@ F_SEARCH = "C12-search-index-file-order"
 F_SRC = "C12-src-copy-basename"
 F_PAR = "C12-parallel-graph-dir-crash"
 F_RACE = "C12-parallel-graph-file-race"
+F_CASE = "C12-case-collision-hash-order"
 
 
 # --------------------------------------------------------------------------
@@ -48,8 +49,10 @@ class Gen:
     (no (get_dir(), name) is shared), at most one USE per unit, unique basenames; the
     others draw from small pools so that the known order-dependent classes occur."""
 
-    def __init__(self, rng: random.Random, clean: bool, nfiles: int, multi_use: bool | None = None):
+    def __init__(self, rng: random.Random, clean: bool, nfiles: int, multi_use: bool | None = None,
+                 case_variants: bool = False):
         self.rng = rng
+        self.case_variants = case_variants
         self.clean = clean
         self.multi = (not clean) if multi_use is None else multi_use
         self.nfiles = nfiles
@@ -67,6 +70,8 @@ class Gen:
     def name(self, prefix, pool):
         if self.clean or self.rng.random() < 0.35:
             return self.fresh(prefix)
+        if not self.case_variants:
+            pool = [x for x in pool if x == x.lower()]
         return self.rng.choice(pool)
 
     def build(self):
@@ -86,12 +91,24 @@ class Gen:
             f = {"path": path, "units": [], "top": []}
             nunits = rng.choice([1, 1, 2])
             for _ in range(nunits):
-                f["units"].append(self.module())
+                self.add_unit(f, self.module())
+            if self.modnames and rng.random() < 0.45:
+                # several submodules of one module: they sit on one level of the dependency order
+                parent = rng.choice(self.modnames)
+                if self.modnames.count(parent) == 1:
+                    for _ in range(rng.choice([2, 2, 3])):
+                        self.add_unit(f, {"kind": "submodule", "parent": parent, "name": self.name("sm", ["sub_a", "sub_b"]),
+                                          "uses": [], "vars": [], "types": [], "procs": [], "ifaces": []})
             if rng.random() < 0.4:
                 f["top"].append(self.proc(None, toplevel=True))
             if rng.random() < 0.3:
-                f["units"].append(self.program())
+                self.add_unit(f, self.program())
             self.files.append(f)
+
+    def add_unit(self, f, u):
+        """two program units of the same name in one file are not a Fortran program"""
+        if u["name"].lower() not in {x["name"].lower() for x in f["units"]}:
+            f["units"].append(u)
 
     def uses(self):
         cands = list(self.modnames)
@@ -210,6 +227,9 @@ class Gen:
 
     def render_unit(self, u):
         L = []
+        if u["kind"] == "submodule":
+            return [f"submodule ({u['parent']}) {u['name']}", f"  !! Submodule {u['name']} docs.",
+                    f"end submodule {u['name']}"]
         if u["kind"] == "module":
             L.append(f"module {u['name']}")
             L.append(f"  !! Module {u['name']} docs.")
@@ -259,6 +279,10 @@ class Gen:
             out[f["path"]] = "\n".join(L) + "\n"
         return out
 
+    @staticmethod
+    def dir_of(u):
+        return "module" if u["kind"] == "submodule" else u["kind"]  # a submodule's get_dir() is "module"
+
     # ---- abstract view for the model and the classification
     def entities(self):
         """(file, qualname, dir, name) for every entity that can ask for an identifier."""
@@ -277,7 +301,7 @@ class Gen:
         for f in self.files:
             ents.append((f["path"], "", "sourcefile", os.path.basename(f["path"])))
             for u in f["units"]:
-                ents.append((f["path"], u["name"], u["kind"], u["name"]))
+                ents.append((f["path"], u["name"], self.dir_of(u), u["name"]))
                 q = u["name"] + "/"
                 for v in u["vars"]:
                     ents.append((f["path"], q + v, "none", v))
@@ -333,8 +357,8 @@ class Gen:
             path = f["path"]
             r = ["F", "src/" + path, os.path.basename(path), path, str(uid_of[(path, "", "sourcefile")]), os.path.basename(path)]
             for u in f["units"]:
-                lst = "modules" if u["kind"] == "module" else "programs"
-                r += ["U", lst, str(uid_of[(path, u["name"], u["kind"])]), u["kind"], u["name"]]
+                lst = {"module": "modules", "submodule": "submodules"}.get(u["kind"], "programs")
+                r += ["U", lst, str(uid_of[(path, u["name"], self.dir_of(u))]), self.dir_of(u), u["name"]]
                 q = u["name"] + "/"
                 for t in u["types"]:
                     r += ["I", "types", str(uid_of[(path, q + t["name"], "type")]), "type", t["name"]]
@@ -646,7 +670,16 @@ def classify(feat, options, base, other, diff_files, same_order: bool):
     only_search = set(diff_files) <= {"search/search_database.json"}
     nograph = lambda t: {k for k in t if not k.startswith("graphs/")}  # graph files exist only for entities that have one
     paths_equal = nograph(base["tree"]) == nograph(other["tree"])
-    if feat["collide"]:
+    def assignment(run):
+        return sorted((r[4], r[5], r[1], r[3]) for r in (run["trace"] or {}).get("requests", []))
+
+    if feat.get("case_collide"):
+        # two entities share one identifier (names differing only in case, the C10 defect): they compete for
+        # one page, one graph node and one graph file, and the winner is decided by hash order
+        if paths_equal:
+            return F_CASE, "identifier shared by " + ", ".join(feat["case_collide"][:3])
+        return None, "set of output files differs"
+    if feat["collide"] and assignment(base) != assignment(other):
         # first-come numbering: contents may move between foo.html and foo~2.html, but the
         # *set* of output files (URLs) must not change
         if paths_equal:
@@ -747,7 +780,7 @@ def run(tier: str, seed: int, replay: str | None = None) -> int:
         ev_f, bad_f = micro_fs(drv, rng, 300 if tier == "quick" else 3000, rep, scratch)
 
         # ---------------- e2e
-        nproj = 28 if tier == "quick" else 60
+        nproj = 24 if tier == "quick" else 60
         if replay:
             nproj = 0
         projects = []
@@ -756,7 +789,7 @@ def run(tier: str, seed: int, replay: str | None = None) -> int:
             clean = pi % 4 in (0, 1)          # globally unique names, unique basenames
             multi = pi % 4 in (1, 2)          # units with two or more USEs
             nfiles = rng.choice([2, 3, 3, 4]) if tier == "quick" else rng.choice([2, 3, 4, 5])
-            g = Gen(random.Random(rng.randint(0, 10 ** 9)), clean, nfiles, multi)
+            g = Gen(random.Random(rng.randint(0, 10 ** 9)), clean, nfiles, multi, case_variants=(pi % 8 == 7))
             options = {"graph": "true" if pi % 3 != 2 else "false",
                        "search": "true" if (pi % 3 == 1) else "false",
                        "incl_src": "true" if pi % 5 != 4 else "false"}
@@ -856,8 +889,12 @@ def run(tier: str, seed: int, replay: str | None = None) -> int:
                 if not tr or not tr.get("requests"):
                     rep.tie_broken(f"e2e: no trace from the shim (project {pi}, run {r['id']}): {rr.get('trace_err')}")
                     continue
-                if r["order"] is not None and tr["order"] != r["order"]:
-                    rep.tie_broken(f"e2e: files parsed in {tr['order']} although enumeration was forced to {r['order']}")
+                if r["order"] is not None:
+                    # asIs: the set is parsed in its iteration order; repaired: sorted first (variant read from the tree)
+                    expect = r["order"] if variant[1] == "asIs" else sorted(r["order"])
+                    if tr["order"] != expect:
+                        rep.tie_broken(f"e2e: files parsed in {tr['order']}; enumeration forced to {r['order']}, "
+                                       f"variant {variant[1]} predicts {expect}")
                 distinct.add(common.digest([proj["files"], proj["options"], tr["order"], r["hashseed"], r["parallel"], r["stale"]]))
                 # --- numbering: the real request sequence replayed through the model
                 ids = {}
